@@ -24,7 +24,7 @@ RULE = ("focal_stats / apply: every 0/1 kernel of the listed shapes (rank = bit 
         "reducer program (count of non-NaN, sum of squares, value at window position (i,j) for every (i,j) of the "
         "kernel shape); mean: every raster of the "
         "family / every grid over the alphabet x passes {0,1,2,3} x excludes {[nan],[0],[nan,3.0]}; convolution_2d: "
-        "every odd shape <= 5x5 x 4 all-distinct weight patterns x rasters; hotspots: kernels x rasters with a "
+        "every odd shape <= 5x5 x 4 all-distinct weight patterns + 3 patterns with all-zero outer rows / columns / ring x rasters; hotspots: kernels x rasters with a "
         "plateau at every placement, called on r and on -r.  A case is non-trivial when its output has >= 2 "
         "distinct non-NaN values (hotspots: a non-zero class); distinct = distinct (input, output) digests.  "
         "validated counts compared cases; tie_skipped counts hotspot cells within 1e-4 of a threshold and mean "
@@ -489,6 +489,11 @@ def mean_family():
     a = small.copy(); a[0, 0] = NAN; a[2, 3] = NAN
     fam.append(("round(generic/5)+nan", a))
     fam.append(("threes", np.full((4, 5), 3.0)))
+    # magnitudes: tiny values and small relief on a large offset (every pass still moves the cells by a relative 1e-7 or more)
+    fam.append(("generic*2^-30", g * 2.0 ** -30))
+    fam.append(("generic+2^20", g + 2.0 ** 20))
+    a = g * 2.0 ** -30; a[1, 1] = NAN
+    fam.append(("generic*2^-30+nan", a))
     return tuple(fam)
 
 
@@ -496,7 +501,9 @@ def mean_family():
 # convolution_2d
 # ------------------------------------------------------------------------------------------------
 CONV_SHAPES = tuple((r, c) for r in (1, 3, 5) for c in (1, 3, 5))
-CONV_PATTERNS = ("1..n", "1..n_i8", "dyadic+-", "irrational")
+# zero_*: weights 1..n with the two outer rows / the two outer columns / the whole outer ring set to 0 (where the shape has them):
+# a zero weight still belongs to the window, whose extent - and so the NaN border - is given by the kernel's SHAPE
+CONV_PATTERNS = ("1..n", "1..n_i8", "dyadic+-", "irrational", "zero_rows", "zero_cols", "zero_ring")
 
 
 def conv_kernel(shape, pattern):
@@ -508,6 +515,15 @@ def conv_kernel(shape, pattern):
         w = (k + 1).astype(np.int64)
     elif pattern == "dyadic+-":
         w = (k - n // 2 - 0.5) * 0.25
+    elif pattern.startswith("zero_"):
+        w = (k + 1).reshape(shape)
+        if pattern in ("zero_rows", "zero_ring") and shape[0] >= 3:
+            w[0, :] = 0
+            w[-1, :] = 0
+        if pattern in ("zero_cols", "zero_ring") and shape[1] >= 3:
+            w[:, 0] = 0
+            w[:, -1] = 0
+        return w
     else:
         w = 0.1 * (k + 1) + 1.0 / (k + 3) - 0.7
     return w.reshape(shape)
